@@ -125,6 +125,10 @@ def _analyze_expression(
     """Analyzes and preprocesses expressions."""
     preserve_geometry_types = (ufl.classes.Jacobian,)
     expression = ufl.algorithms.apply_algebra_lowering.apply_algebra_lowering(expression)
+    if ufl.algorithms.analysis.extract_type(expression, ufl.classes.Restricted):
+        # An expression is evaluated on one cell: there is no second cell whose
+        # coefficient / coordinate data a restriction could refer to
+        raise RuntimeError("Restrictions ('+', '-', avg, jump) are not supported in Expressions.")
     expression = ufl.algorithms.apply_derivatives.apply_derivatives(expression)
     expression = ufl.algorithms.apply_function_pullbacks.apply_function_pullbacks(expression)
     expression = ufl.algorithms.apply_geometry_lowering.apply_geometry_lowering(
